@@ -45,7 +45,8 @@ func vDeepState(s *Store) map[string][]any {
 	return out
 }
 
-func VerifC05_FailedTxnTouchesNothing() {
+// a catalog with a service, its check, a sidecar with an upstream, a session holding a lock and a plain key
+func vC05PreState() (*Store, *vC05Pub) {
 	netutil.GetAgentBindAddrFunc = netutil.GetMockGetAgentBindAddrFunc("0.0.0.0")
 	pub := &vC05Pub{}
 	s := NewStateStoreWithEventPublisher(nil, pub)
@@ -67,6 +68,17 @@ func VerifC05_FailedTxnTouchesNothing() {
 	must(s.KVSSet(6, &structs.DirEntry{Key: "z", Value: []byte{2}}))
 	pub.n = 0
 
+	return s, pub
+}
+
+func VerifC05_FailedTxnTouchesNothing() {
+	s, pub := vC05PreState()
+	must := func(err error) {
+		if err != nil {
+			panic(err)
+		}
+	}
+	var err error
 	before := vDeepState(s)
 	ws := memdb.NewWatchSet()
 	_, _, err = s.CheckServiceNodes(ws, "web", nil, "")
@@ -114,5 +126,46 @@ func VerifC05_FailedTxnTouchesNothing() {
 	verifrt.Assert("C05.failed."+name+".no-table-content-changed", reflect.DeepEqual(before, vDeepState(s)))
 	verifrt.Assert("C05.failed."+name+".no-stream-event", pub.n == 0)
 	verifrt.Assert("C05.failed."+name+".no-watcher-woken", !vFired(ws))
+	verifrt.Reached("end")
+}
+
+// A read-only transaction never modifies state: no table content, no index, no event, no watcher.
+func VerifC05_ReadOnlyTxn() {
+	s, pub := vC05PreState()
+	before := vDeepState(s)
+	ws := memdb.NewWatchSet()
+	if _, _, err := s.CheckServiceNodes(ws, "web", nil, ""); err != nil {
+		panic(err)
+	}
+	if _, _, err := s.KVSList(ws, "", nil); err != nil {
+		panic(err)
+	}
+	cidx := verifrt.U64("cidx")
+	key := []string{"k", "z", "nope"}[verifrt.Choice("key", 3)]
+	var op *structs.TxnOp
+	switch verifrt.Choice("verb", 8) {
+	case 0:
+		op = &structs.TxnOp{KV: &structs.TxnKVOp{Verb: api.KVGet, DirEnt: structs.DirEntry{Key: key}}}
+	case 1:
+		op = &structs.TxnOp{KV: &structs.TxnKVOp{Verb: api.KVGetTree, DirEnt: structs.DirEntry{Key: ""}}}
+	case 2:
+		op = &structs.TxnOp{KV: &structs.TxnKVOp{Verb: api.KVCheckIndex, DirEnt: structs.DirEntry{Key: key, RaftIndex: structs.RaftIndex{ModifyIndex: cidx}}}}
+	case 3:
+		op = &structs.TxnOp{KV: &structs.TxnKVOp{Verb: api.KVCheckSession, DirEnt: structs.DirEntry{Key: key, Session: vSessA}}}
+	case 4:
+		op = &structs.TxnOp{KV: &structs.TxnKVOp{Verb: api.KVCheckNotExists, DirEnt: structs.DirEntry{Key: key}}}
+	case 5:
+		op = &structs.TxnOp{Node: &structs.TxnNodeOp{Verb: api.NodeGet, Node: structs.Node{Node: "n1"}}}
+	case 6:
+		op = &structs.TxnOp{Service: &structs.TxnServiceOp{Verb: api.ServiceGet, Node: "n1", Service: structs.NodeService{ID: "p1"}}}
+	default:
+		op = &structs.TxnOp{Check: &structs.TxnCheckOp{Verb: api.CheckGet, Check: structs.HealthCheck{Node: "n1", CheckID: "c1"}}}
+	}
+	// (results of get verbs point at the stored objects, like every read of the state store: callers must not
+	// modify them, and the harness does not)
+	_, _ = s.TxnRO(structs.TxnOps{op, op})
+	verifrt.Assert("C05.read-only.no-table-content-changed", reflect.DeepEqual(before, vDeepState(s)))
+	verifrt.Assert("C05.read-only.no-stream-event", pub.n == 0)
+	verifrt.Assert("C05.read-only.no-watcher-woken", !vFired(ws))
 	verifrt.Reached("end")
 }
